@@ -49,7 +49,7 @@ func init() {
 		Level:       "Static rules deciding named necessary conditions of the count/never-panic clauses. Partial: FST range/automaton semantics and term order live in vellum and are not analysed.",
 		Explanation: "INIT-BEFORE-READ proves every PostingsList.read receiver is a freshly re-initialised list (so a count can never inherit the 1-hit flag of the previous term); NIL-RESULT derives the functions that may return (nil,nil) and proves every dereference or escaping interface conversion of such a result crossed a nil test on all paths (unknown field => emptyDictionary, never a nil pointer in an interface); NIL-FIELD proves every method call on Dictionary.fst/fstReader is dominated by a nil test; INSERT-GUARD proves terms are inserted only with postingsOffset>0 and writePostings returns 0 for empty bitmaps; ONEHIT-AWARE proves every content use of PostingsList.postings also dispatches on normBits1Hit.",
 		NotCovered:  "vellum FST range/automaton semantics, term order, numeric correctness of counts under exclusion bitmaps",
-		Uses:        []RuleUse{{"INIT-BEFORE-READ", ""}, {"NIL-RESULT", ""}, {"NIL-FIELD", ""}, {"INSERT-GUARD", ""}, {"ONEHIT-AWARE", ""}, {"PARALLEL-APPEND", ""}, {"TERM-BOUNDARY", ""}, {"ENUM-SKIP-GUARD", ""}},
+		Uses:        []RuleUse{{"INIT-BEFORE-READ", ""}, {"NIL-RESULT", ""}, {"NIL-FIELD", ""}, {"INSERT-GUARD", ""}, {"ONEHIT-AWARE", ""}, {"PARALLEL-APPEND", ""}, {"TERM-BOUNDARY", ""}, {"ENUM-SKIP-GUARD", ""}, {"SINGLETON-GUARD", ""}},
 	})
 	prop(&Property{
 		ID:          "C18",
@@ -58,7 +58,7 @@ func init() {
 		Level:       "Static rules deciding named necessary conditions (never a nil dereference for unknown fields, both encodings reach the union, the cached dictionary is replaced whenever the field changes). Partial: set equality itself is a value property.",
 		Explanation: "NIL-RESULT covers the (*Segment).dictionary call in DocsMatchingTerms (path-sensitive, phi-aware: the cached dictionary variable is a loop phi); ONEHIT-AWARE covers OrInto; FIELD-CACHE proves the dictionary reload is control-dependent on thisField != lastField and that lastField and the cached dictionary are updated together on that path only.",
 		NotCovered:  "equality of the returned set with the union (value property)",
-		Uses:        []RuleUse{{"NIL-RESULT", ""}, {"NIL-FIELD", ""}, {"ONEHIT-AWARE", ""}, {"FIELD-CACHE", ""}, {"TERM-BOUNDARY", ""}},
+		Uses:        []RuleUse{{"NIL-RESULT", ""}, {"NIL-FIELD", ""}, {"ONEHIT-AWARE", ""}, {"FIELD-CACHE", ""}, {"TERM-BOUNDARY", ""}, {"SINGLETON-GUARD", ""}},
 	})
 }
 
@@ -115,7 +115,7 @@ func init() {
 		Level:       "Static rules deciding the shape of the map for every input: one table per input segment of that segment's length, filled exactly once per document with the sentinel or a consecutive counter threaded across segments, defined on every success path (incl. zero survivors), published by the Merger, survivor count from the bitmaps. Partial: that content is found at the reported number is a value property (its structural part is REMAP under C02).",
 		Explanation: "DOCNUMS-DEFINED: phi-aware check that no nil-error return of mergeToWriter carries a nil map. DOCNUMS-SHAPE: enumerates every acyclic path through one iteration of the per-document loop (mergeStoredAndRemapSegment) and of the per-segment loop (mergeStoredAndRemap): exactly one store table[docNum] per path, the sentinel exactly on the drops.Contains edge with the counter unchanged, otherwise the counter which advances by exactly one; each segment iteration fills then appends exactly one make([]uint64, seg.footer.numDocs); counter threaded from 0 through the fill loop / callee result; zero-survivor branch builds all-dropped tables. DOCNUMS-PUBLISHED: Merger.WriteTo stores merge's result into the field DocumentNumbers returns; Merge/merge pass every segment and the caller's drops unchanged; docDropped folds to MaxInt64; footer.numDocs = computeNewDocCount. STORED-OFFSET-SOURCE: every stored-offset index entry is coder.Size() taken right before coder.Add of the same document.",
 		NotCovered:  "that the content of a surviving document is found at its reported number (value property); bitmaps that violate the input contract",
-		Uses:        []RuleUse{{"DOCNUMS-DEFINED", ""}, {"DOCNUMS-SHAPE", ""}, {"DOCNUMS-PUBLISHED", ""}, {"STORED-OFFSET-SOURCE", ""}, {"REMAP-TABLE-READONLY", ""}},
+		Uses:        []RuleUse{{"DOCNUMS-DEFINED", ""}, {"DOCNUMS-SHAPE", ""}, {"DOCNUMS-PUBLISHED", ""}, {"STORED-OFFSET-SOURCE", ""}, {"REMAP-TABLE-READONLY", ""}, {"FASTPATH-GUARD", ""}},
 	})
 }
 
@@ -148,7 +148,7 @@ func init() {
 		Level:       "Static rules deciding agreement clauses for every input: the writer and the reader of each of the 11 on-disk records use the same sequence of primitives (kinds, widths, loop structure, byte order; tail-first trailers reversed), every section the loader parses is present on every writer path or skipped under a condition the loader also tests, layout adjacency assumptions hold, the in-memory image is the written bytes, WriteTo returns data+footer length. Partial: identical ANSWERS after load are a value property.",
 		Explanation: "WIRE-AGREE extracts, from the type-checked AST, the source-ordered sequence of wire primitives (binary.Write/PutUvarint/writeUvarints/PutUintN/raw Write vs binary.Uvarint/UintN/raw Data.Read) of each writer and reader region with loops as nested units and compares the 11 pairs (builder and merger writers must also agree with each other; footer fields must correspond by name; parseFooter's offsets must form a contiguous tail of footerLen bytes with widths matching their decodes). SECTION-PRESENT proves by dominance that load() always runs the three section loaders and that each section is written on every successful path of both data-section writers, or skipped exactly on the zero-document branch the loader also guards. ADJACENCY, MEM-IMAGE and LEN-RETURN pin the implicit layout assumptions, the builder's memory image and the byte counts.",
 		NotCovered:  "identical answers after load (value property); file-backed vs memory-backed look-ahead near the end of data (layout arithmetic)",
-		Uses:        []RuleUse{{"WIRE-AGREE", ""}, {"SECTION-PRESENT", ""}, {"ADJACENCY", ""}, {"MEM-IMAGE", ""}, {"LEN-RETURN", ""}, {"TAIL-READ-BOUNDED", ""}, {"DV-SECTION-COMPLETE", ""}, {"PER-FIELD-COMPLETE", ""}},
+		Uses:        []RuleUse{{"WIRE-AGREE", ""}, {"SECTION-PRESENT", ""}, {"ADJACENCY", ""}, {"MEM-IMAGE", ""}, {"LEN-RETURN", ""}, {"TAIL-READ-BOUNDED", ""}, {"DV-SECTION-COMPLETE", ""}, {"PER-FIELD-COMPLETE", ""}, {"ESCAPE-FRESH", ""}},
 	})
 	prop(&Property{
 		ID:          "C10",
@@ -157,7 +157,7 @@ func init() {
 		Level:       "Static freeze of the format: every layout-defining constant (by folded value at its use site), every writer's and reader's primitive sequence incl. byte order and carried fields, the codec, the CRC polynomial and the versions of the embedded serialisations equal the pinned reference. Detects symmetric writer+reader changes that round-trip. Partial: arithmetic inside encoders beyond its constants, and roaring/vellum/zstd serialisations (pinned by go.mod, compared) are not analysed.",
 		Explanation: "FMT-CONST compares 27 named format constants, ~35 use-site constants (block size 128 at both coders and the reader's divisor; doc-value chunk arguments (1024,0,0) at three sites; chunk mode 1025 at New/merge; getChunkSize's bounds; bit-level encoder constants; termSeparator 0xff) and the roaring/vellum/compress versions with golden/format_v2.json. FMT-SEQ compares the wire signature of 33 writer/reader functions with the golden ones (this catches symmetric changes WIRE-AGREE accepts by construction). FMT-CODEC pins zstd EncodeAll/DecodeAll as the only codec; CRC-UPDATE pins CRC-32 IEEE. The compression level is reported, not gated (any level is readable by the reference reader).",
 		NotCovered:  "roaring/vellum serialisation internals (versions pinned and compared); the arithmetic of the encoders beyond their constants",
-		Uses:        []RuleUse{{"FMT-CONST", ""}, {"FMT-SEQ", ""}, {"FMT-CODEC", ""}, {"CRC-UPDATE", ""}, {"WIRE-AGREE", ""}},
+		Uses:        []RuleUse{{"FMT-CONST", ""}, {"FMT-SEQ", ""}, {"FMT-CODEC", ""}, {"CRC-UPDATE", ""}, {"WIRE-AGREE", ""}, {"DV-SEPARATOR", ""}},
 	})
 }
 
@@ -169,7 +169,7 @@ func init() {
 		Level:       "Static rules deciding named NECESSARY conditions of the behaviour, not the behaviour: writer and reader derive the chunk size from the same three quantities and index chunks the same way; the location byte-count prefix counts exactly the quantities that are encoded; _id first / sorted field order; sibling literals agree; the reused encoders are fully reset. The equality of postings, frequencies, norms and locations for every batch is a value property and is NOT decided.",
 		Explanation: "CHUNK-AGREE checks the getChunkSize call of the builder (s.chunkMode, GetCardinality of the very bitmap writePostings serialises, len(s.results) — and that newWithChunkMode records the same mode and length in the footer) against the reader's (footer.chunkMode, GetCardinality of the bitmap just deserialised, footer.numDocs), that both encoders are re-sized with the result, and that both sides compute the chunk index as docNum / chunkSize (CHUNK-INDEX for the encoders). LENPREFIX-AGREE compares, as a multiset of normalised expression trees, the four arguments of totalUvarintBytes with the four values encoded per location and pins numUvarintBytes' shape. FIELD-ORDER, SIBLING-LITERAL, RESET-COMPLETE (the shared encoders) and ONEHIT-AWARE complete the set.",
 		NotCovered:  "the two-pass accumulation arithmetic, completeness of terms/postings, norms, terms with more than 1024 documents (values)",
-		Uses:        []RuleUse{{"CHUNK-AGREE", ""}, {"CHUNK-INDEX", ""}, {"LENPREFIX-AGREE", ""}, {"FIELD-ORDER", ""}, {"SIBLING-LITERAL", ""}, {"RESET-COMPLETE", ""}},
+		Uses:        []RuleUse{{"CHUNK-AGREE", ""}, {"CHUNK-INDEX", ""}, {"LENPREFIX-AGREE", ""}, {"FIELD-ORDER", ""}, {"SIBLING-LITERAL", ""}, {"RESET-COMPLETE", ""}, {"ESCAPE-FRESH", ""}},
 	})
 	prop(&Property{
 		ID:          "C02",
@@ -178,7 +178,7 @@ func init() {
 		Level:       "Static rules deciding named NECESSARY conditions: every document number written is the remapped one, location field ids use the merged map, doc values are re-added under new numbers and dropped ones skipped, the parallel per-iterator slices come from one filtered result, the byte-copy path is taken only for identical field lists without deletions, 1-hit encoding only under its full conjunction, chunk size from the footer quantities, terms inserted only with postings. Observational equality with a rebuild is a value property and is NOT decided.",
 		Explanation: "REMAP (mergeTermFreqNormLocs, buildMergedDocVals visitor, persistMergedRestField), CHUNK-AGREE (prepareNewTerm traced through its unique call chain to the values stored in the merged footer), LENPREFIX-AGREE, FASTPATH-GUARD (+ mergeFields compares every field of every segment), INSERT-GUARD, ONEHIT-GUARD, FIELD-ORDER (mergeFields), STORED-OFFSET-SOURCE, FIELDID-LANE, DV-SECTION-COMPLETE.",
 		NotCovered:  "k-way enumeration order, the re-encoding arithmetic, correctness of the stored-field byte copy (values)",
-		Uses:        []RuleUse{{"REMAP", ""}, {"CHUNK-AGREE", ""}, {"LENPREFIX-AGREE", ""}, {"FASTPATH-GUARD", ""}, {"INSERT-GUARD", ""}, {"ONEHIT-GUARD", ""}, {"FIELD-ORDER", ""}, {"STORED-OFFSET-SOURCE", ""}, {"BLOCK-CURSOR", ""}, {"FIELDID-LANE", ""}, {"DV-SECTION-COMPLETE", ""}, {"PER-FIELD-COMPLETE", ""}, {"LOOP-BOUND-AGREE", ""}, {"PARALLEL-APPEND", ""}, {"REMAP-TABLE-READONLY", ""}, {"TERM-BOUNDARY", ""}, {"ENUM-SKIP-GUARD", ""}},
+		Uses:        []RuleUse{{"REMAP", ""}, {"CHUNK-AGREE", ""}, {"LENPREFIX-AGREE", ""}, {"FASTPATH-GUARD", ""}, {"INSERT-GUARD", ""}, {"ONEHIT-GUARD", ""}, {"FIELD-ORDER", ""}, {"STORED-OFFSET-SOURCE", ""}, {"BLOCK-CURSOR", ""}, {"FIELDID-LANE", ""}, {"DV-SECTION-COMPLETE", ""}, {"PER-FIELD-COMPLETE", ""}, {"LOOP-BOUND-AGREE", ""}, {"PARALLEL-APPEND", ""}, {"REMAP-TABLE-READONLY", ""}, {"TERM-BOUNDARY", ""}, {"ENUM-SKIP-GUARD", ""}, {"RESET-COMPLETE", ""}},
 	})
 	prop(&Property{
 		ID:          "C07",
@@ -187,7 +187,7 @@ func init() {
 		Level:       "Static rules deciding named NECESSARY conditions: writers and reader chunk doc values by the same constant, the chunk index is docNum/that constant, terms are stored unmodified followed by the separator the reader splits on, every recorded section has its trailer, the chunk cache is coherent across chunk switches, per-segment readers are indexed by that segment's field id, merged doc values are re-added under new numbers. Which terms a document gets back (binary search, ordering) is a value property and is NOT decided.",
 		Explanation: "DV-FACTOR-AGREE, CHUNK-INDEX (content coder), DV-SEPARATOR, DV-SECTION-COMPLETE, FIELDID-LANE, REMAP (DV-REMAP part), CLONE-DISCIPLINE, CACHE-COHERENT, RESET-COMPLETE (cloneInto) and the two doc-value pairs of WIRE-AGREE.",
 		NotCovered:  "the header binary search, chunk-cache logic across visiting orders beyond coherence, sorted term order (values)",
-		Uses:        []RuleUse{{"DV-FACTOR-AGREE", ""}, {"CHUNK-INDEX", ""}, {"DV-SEPARATOR", ""}, {"DV-SECTION-COMPLETE", ""}, {"FIELDID-LANE", ""}, {"REMAP", ""}, {"CLONE-DISCIPLINE", ""}, {"CACHE-COHERENT", ""}, {"WIRE-AGREE", ""}},
+		Uses:        []RuleUse{{"DV-FACTOR-AGREE", ""}, {"CHUNK-INDEX", ""}, {"DV-SEPARATOR", ""}, {"DV-SECTION-COMPLETE", ""}, {"FIELDID-LANE", ""}, {"REMAP", ""}, {"CLONE-DISCIPLINE", ""}, {"CACHE-COHERENT", ""}, {"WIRE-AGREE", ""}, {"RESET-COMPLETE", ""}, {"RE-EXTENSION", ""}, {"STATE-AFTER-FALLIBLE", ""}},
 	})
 }
 
